@@ -1,2 +1,77 @@
-/-! line-protocol driver for property C02 (stub) -/
-def main (_args : List String) : IO Unit := pure ()
+import MirVerif.Model.Sem
+import MirVerif.Model.SemFp
+/-! `mirdrv_c02`: evaluates the documented semantics (`docSem` & co.) on lines
+`<key> <hex a> <hex b>` and prints the documented result as hex (`undef` outside the domain).
+keys:  bin:<aop>:<0|1>   br:<aop>:<0|1>   ext:<k>:<0|1>   neg:<0|1>
+       ov:<add|sub|mul|umul>:<0|1>:<res|sov|uov>   fp:<name>   ld:<type>   st:<type> -/
+open MirVerif
+
+def parseHex (s : String) : UInt64 :=
+  s.foldl (fun acc c =>
+    let d := if c.isDigit then c.toNat - '0'.toNat
+             else if 'a' ≤ c ∧ c ≤ 'f' then c.toNat - 'a'.toNat + 10
+             else if 'A' ≤ c ∧ c ≤ 'F' then c.toNat - 'A'.toNat + 10 else 0
+    acc * 16 + d.toUInt64) 0
+
+def hex (x : W64) : String := String.ofList (Nat.toDigits 16 x.toNat)
+
+def aopOf : String → Option AOp
+  | "add" => some .add | "sub" => some .sub | "mul" => some .mul | "div" => some .div
+  | "udiv" => some .udiv | "mod" => some .mod | "umod" => some .umod | "and" => some .and
+  | "or" => some .or | "xor" => some .xor | "lsh" => some .lsh | "rsh" => some .rsh
+  | "ursh" => some .ursh | "eq" => some .eq | "ne" => some .ne | "lt" => some .lt
+  | "ult" => some .ult | "le" => some .le | "ule" => some .ule | "gt" => some .gt
+  | "ugt" => some .ugt | "ge" => some .ge | "uge" => some .uge | _ => none
+
+def b2s (b : Bool) : String := if b then "1" else "0"
+
+def evalLine (toks : List String) : String :=
+  match toks with
+  | [key, sa, sb] =>
+    let a : W64 := BitVec.ofNat 64 (parseHex sa).toNat
+    let b : W64 := BitVec.ofNat 64 (parseHex sb).toNat
+    match key.splitOn ":" with
+    | ["bin", o, s] =>
+      match aopOf o with
+      | some ao => match docSem ao (s == "1") a b with
+        | some r => hex r
+        | none => "undef"
+      | none => "bad-key"
+    | ["br", o, s] =>
+      match aopOf o with
+      | some ao => match docSem ao (s == "1") a b with
+        | some _ => b2s (docBranch ao (s == "1") a b)
+        | none => "undef"
+      | none => "bad-key"
+    | ["ext", k, s] => hex (docExt k.toNat! (s == "1") a)
+    | ["neg", s] => hex (docNeg (s == "1") a)
+    | ["ov", o, s, what] =>
+      let short := s == "1"
+      let r : W64 × Bool × Bool :=
+        match o, short with
+        | "add", false => let (r, sv, uv) := docAddO a b; (r, sv, uv)
+        | "add", true => let (r, sv, uv) := docAddO (lo32 a) (lo32 b); (sext32 r, sv, uv)
+        | "sub", false => let (r, sv, uv) := docSubO a b; (r, sv, uv)
+        | "sub", true => let (r, sv, uv) := docSubO (lo32 a) (lo32 b); (sext32 r, sv, uv)
+        | "mul", false => let (r, sv) := docMulO a b; (r, sv, false)
+        | "mul", true => let (r, sv) := docMulO (lo32 a) (lo32 b); (sext32 r, sv, false)
+        | "umul", false => let (r, uv) := docUMulO a b; (r, false, uv)
+        | _, _ => let (r, uv) := docUMulO (lo32 a) (lo32 b); (sext32 r, false, uv)
+      match what with
+      | "res" => hex r.1
+      | "sov" => b2s r.2.1
+      | _ => b2s r.2.2
+    | ["fp", name] => fpEval name (parseHex sa) (parseHex sb)
+    | ["ld", t] => match docLoad t a with | some r => hex r | none => "bad-key"
+    | ["st", t] => match docStore t a b with | some r => hex r | none => "bad-key"
+    | _ => "bad-key"
+  | _ => "bad-line"
+
+partial def loop (h : IO.FS.Stream) (out : IO.FS.Stream) : IO Unit := do
+  let line ← h.getLine
+  if line.isEmpty then return ()
+  out.putStrLn (evalLine (line.trimAscii.toString.splitOn " "))
+  loop h out
+
+def main (_args : List String) : IO Unit := do
+  loop (← IO.getStdin) (← IO.getStdout)
